@@ -13,6 +13,8 @@ import (
 	"crypto/sha256"
 	"encoding/json"
 	"fmt"
+	"io"
+	"log/slog"
 	"math/rand"
 	"sort"
 	"strings"
@@ -90,7 +92,7 @@ type state struct {
 	img      map[int][32]byte // sha256(image_n)
 	snapTime map[string]int64 // level-9 path -> header timestamp (ms)
 	restores int
-	usedHigh int // successes whose reference chain needed a level>=1 file
+	usedHigh int // successes whose restore plan contained a level>=1 file
 }
 
 func runCase(run *vf.Run, raw json.RawMessage, dir string) *vf.Result {
@@ -388,7 +390,6 @@ func (st *state) tsCheck(phase string) bool {
 			exp = n
 		}
 		best := reach(files, tm, false)
-		high := best > reach(files, tm, true)
 		where := fmt.Sprintf("%s T=%d (ts(1)=%d ts(%d)=%d, %d TXIDs replicated before T, replica %s)", phase, tm, st.ts(1), max, st.ts(max), exp, summary(e.RepPath))
 		if err != nil {
 			e.Logf("%s T=%d -> error %v (exp=%d reach=%d)", phase, tm, err, exp, best)
@@ -449,9 +450,26 @@ func (st *state) tsCheck(phase string) bool {
 		}
 		prev, prevT = before, tm
 		res.Count("timestamp_restores_matching_a_state_before_T", 1)
-		if high {
-			st.usedHigh++
-			res.Count("results_needing_a_level>=1_file", 1)
+		// coverage evidence only: which levels the real plan for this T draws on
+		if plan, perr := litestream.CalcRestorePlan(e.Ctx, rr.Client, 0, T, slog.New(slog.NewTextHandler(io.Discard, nil))); perr == nil {
+			snap, comp := false, false
+			for _, fi := range plan {
+				snap = snap || fi.Level == litestream.SnapshotLevel
+				comp = comp || (fi.Level > 0 && fi.Level < litestream.SnapshotLevel)
+			}
+			switch {
+			case snap && comp:
+				res.Count("plans_snapshot+compacted(+l0)", 1)
+			case snap:
+				res.Count("plans_snapshot(+l0)", 1)
+			case comp:
+				res.Count("plans_compacted(+l0)", 1)
+			default:
+				res.Count("plans_l0_only", 1)
+			}
+			if snap || comp {
+				st.usedHigh++
+			}
 		}
 		if tm == st.ts(exp)+1 {
 			res.Count("T_one_ms_after_a_replication_time", 1)
